@@ -276,11 +276,8 @@ func shortLines(text string) bool {
 }
 
 func dbmateOK(up string) bool {
-	if !shortLines(up) {
-		return false
-	}
 	for _, l := range modelLines(up) {
-		if strings.HasPrefix(l, "-- migrate:") || strings.Contains(l, "-- migrate:up") || strings.Contains(l, "down") {
+		if strings.HasPrefix(l, "-- migrate:") {
 			return false
 		}
 	}
@@ -295,8 +292,7 @@ func gooseChangeOK(cmd, comment string) bool {
 	text := toolComment(comment) + cmd + ";\n"
 	ls := modelLines(text)
 	for i, l := range ls {
-		if strings.HasPrefix(l, "-- +goose") || strings.Contains(l, "-- +goose Up") || strings.Contains(l, "Down") ||
-			strings.Contains(l, "StatementBegin") || strings.Contains(l, "StatementEnd") {
+		if strings.HasPrefix(l, "-- +goose") {
 			return false
 		}
 		if strings.TrimRightFunc(l, unicode.IsSpace) != l {
@@ -306,7 +302,7 @@ func gooseChangeOK(cmd, comment string) bool {
 			return false
 		}
 	}
-	return !strings.Contains(text, "\r") && shortLines(text) && !strings.HasPrefix(toolComment(comment), gooseDelim)
+	return !strings.Contains(text, "\r") && !strings.HasPrefix(toolComment(comment), gooseDelim)
 }
 
 type hypChange struct {
